@@ -259,6 +259,17 @@ def generate():
     b = [ast.unparse(s) for s in fn.body if not (isinstance(s, ast.Expr) and isinstance(s.value, ast.Constant))]
     if b != ['if mat is None:\n    return None', 'if len(mat.shape) == 1:\n    return mat[indices]\nelse:\n    return mat[indices][:, indices]']:
         raise TranslationError(f'get_sub_matrix is not (None | vector block | square block): {b}')
+    # block-restricted AGOP: gradients, optional centring, zero matrix, the numerical block and each categorical block filled with G[:, idx]^T G[:, idx]
+    fa = _cls_method(tree, 'Kernel', 'get_agop_categorical')
+    ba = [ast.unparse(s) for s in fa.body if not (isinstance(s, ast.Expr) and isinstance(s.value, ast.Constant))]
+    want_a = ['numerical_indices = self.numerical_indices', 'categorical_indices = self.categorical_indices', 'f_grads = self.get_function_grads(x, z, coefs, mat)',
+              'f_grads = f_grads.reshape(-1, f_grads.shape[-1])', 'if center_grads:\n    f_grads = f_grads - f_grads.mean(dim=0, keepdim=True)', 'd = x.shape[1]',
+              'agop = torch.zeros((d, d), device=x.device, dtype=x.dtype)',
+              'if numerical_indices is not None and len(numerical_indices) > 0:\n    agop[numerical_indices[:, None], numerical_indices] = f_grads[:, numerical_indices].T @ f_grads[:, numerical_indices]',
+              'if categorical_indices is not None:\n    for cat_idx in categorical_indices:\n        agop[cat_idx[:, None], cat_idx] = f_grads[:, cat_idx].T @ f_grads[:, cat_idx]', 'return agop']
+    if ba != want_a:
+        k = next((i for i in range(min(len(ba), len(want_a))) if ba[i] != want_a[i]), min(len(ba), len(want_a)))
+        raise TranslationError(f'Kernel.get_agop_categorical changed at statement {k}: {(ba[k] if k < len(ba) else "<missing>")[:160]!r}')
     return f'''(* GENERATED on every run by harness/catops.py from /repo/xrfm/rfm_src/kernels.py — do not edit *)
 From Coq Require Import Reals List Lra.
 Require Import XV.Real.Kernels XV.Real.Grads XV.Real.Categorical XV.Real.CatFast.
